@@ -382,8 +382,10 @@ def oracle(case, obs):
                         seen[i][o] = v
                         if immediate and o not in wrote[i]: stable[i][o] = v
                 elif act[0] == 'lock':
-                    seen[i].setdefault(o, v)
-                    if o not in wrote[i]: stable[i][o] = v
+                    # a locking load always queries: what it returns is what the session knows from now on (on the unchanged
+                    # code a value different from an earlier read raises UnrepeatableReadError instead)
+                    if o not in wrote[i]: seen[i][o] = v; stable[i][o] = v
+                    else: seen[i].setdefault(o, v)
                 elif act[0] == 'update':
                     if o not in wrote[i]: basis[i][o] = seen[i].get(o)
                     wrote[i][o] = v; seen[i][o] = v
